@@ -724,6 +724,15 @@ namespace Frappy.Poller
 
 /-! ## the start-up round, for the refresh bound -/
 
+theorem writeOne_step (env : Env) (hq : Quiet env) (i p j q : Nat) (σ : PollState) :
+    Step i p σ (writeOne env σ j q).σ := by
+  have h0 : Step i p σ { σ with pending := popPending σ.pending j q } :=
+    ⟨Nat.le_refl _, id, rfl, rfl, Nat.le_refl _⟩
+  have h1 := call_step env hq i p { σ with pending := popPending σ.pending j q } j (.write q)
+  have h2 : Step i p (call env { σ with pending := popPending σ.pending j q } j (.write q)).σ (writeOne env σ j q).σ :=
+    ⟨Nat.le_refl _, id, rfl, rfl, Nat.le_refl _⟩
+  exact (h0.trans h1).trans h2
+
 theorem writeParams_step (env : Env) (hq : Quiet env) (i p j : Nat) (ps : List Nat) : ∀ σ evs,
     Step i p σ (writeParams env j ps σ evs).σ := by
   induction ps with
@@ -731,9 +740,9 @@ theorem writeParams_step (env : Env) (hq : Quiet env) (i p j : Nat) (ps : List N
   | cons q ps ih =>
     intro σ evs
     simp only [writeParams]
-    have h0 : Step i p σ { σ with pending := popPending σ.pending j q } :=
-      ⟨Nat.le_refl _, id, rfl, rfl, Nat.le_refl _⟩
-    exact (h0.trans (call_step env hq i p _ j (.write q))).trans (ih _ _)
+    split
+    · exact (writeOne_step env hq i p j q σ).trans (ih _ _)
+    · exact ih _ _
 
 theorem writeInit_step (env : Env) (hq : Quiet env) (i p j : Nat) (σ : PollState) (evs : List Event) :
     Step i p σ (writeInit env σ j evs).σ := writeParams_step env hq i p j _ σ evs
